@@ -21,7 +21,8 @@ TRUSTED = ["CPython ast parser", "Console.render_lines pads every line to the op
 
 
 def _frame_rule(ctx, spec: str, frame_desc: str):
-    f = ctx.repo.fn(spec)
+    from .common import splice_generator_helpers
+    f = splice_generator_helpers(ctx.repo.fn(spec))
     env = WidthEnv(f)
     em = Emit(env).run()
     where = f.where
@@ -79,7 +80,8 @@ def r8_3(ctx):
         ctx.floor(len(em.lines), 3, "panel line kinds (top, body, bottom)")
     # the child's lines pass through unmodified: `yield from line` for line in lines
     for spec in ("padding:Padding.__rich_console__", "panel:Panel.__rich_console__"):
-        g = ctx.repo.fn(spec)
+        from .common import splice_generator_helpers
+        g = splice_generator_helpers(ctx.repo.fn(spec))
         ok = False
         for lp in walk_local(g.node):
             if isinstance(lp, ast.For) and norm(lp.iter) == "lines":
